@@ -7,8 +7,34 @@ PROP = "C19"
 def make_cases(rng, tier, n):
     cases, stats = [], {}
     for i in range(n):
-        c = gen.basic_project(rng, "cor-%d" % i, tier, stats=stats, allow_skip=False, allow_inputs=False)
+        wide = (i % 10 == 4)
+        c = gen.basic_project(rng, "cor-%d" % i, tier, stats=stats, allow_skip=False, allow_inputs=False, wide=wide)
         kind = rng.choice(["flip", "truncate", "extend", "truncate0", "other"])
+        widefile = None
+        if wide:
+            # a directory with more entries than any worker pool / batch size: the damaged object belongs to an entry that sorts
+            # early, in the middle or late in the listing
+            wf = sorted(e[1] for e in c["init"] if e[0] == "file" and b"/wide" in e[1])
+            if wf:
+                widefile = wf[rng.choice([0, 1, len(wf) // 3, len(wf) // 2, len(wf) - 2])]
+                stats["wide_directory"] = stats.get("wide_directory", 0) + 1
+        if i % 10 == 7 and len(c["stages"]) >= 2:
+            # a pipeline: the later stage takes an output of the earlier one as input; the damaged object belongs to the UPSTREAM
+            # stage and only the downstream stage is named on the command line
+            up_out = c["stages"][0][1]["out"]
+            p_, fl_ = up_out[0]
+            c["stages"][-1][1].setdefault("in", []).append((p_, "d" if "d" in fl_ else ""))
+            upfiles = sorted(e[1] for e in c["init"] if e[0] == "file" and (e[1] == p_ or e[1].startswith(p_ + b"/")) and
+                             not ("r" in fl_ and b"/" in e[1][len(p_) + 1:]))
+            if upfiles:
+                spec_ = "g:%d:%d" % (rng.randrange(7000, 9000), rng.choice([1, 300, 65537]))
+                keep_ = [b"workdir", b"workdir/inner"] if c.get("cwd") else []
+                c["ops"] = [("commit", rng.choice("lc"), []), ("corrupt", "p" + s1.hx(rng.choice(upfiles)), spec_), ("clone", keep_),
+                            ("checkout", "c", False, [c["stages"][-1][0]])]
+                c["kind"] = kind + "-upstream"
+                stats["kind_upstream"] = stats.get("kind_upstream", 0) + 1
+                cases.append(c)
+                continue
         size = rng.choice([1, 2, 300, 65536, 65537])
         if kind == "truncate0":
             spec = "g:1:0"
@@ -21,7 +47,7 @@ def make_cases(rng, tier, n):
             c["init"] += [("file", b"dup_a.bin", dup), ("file", b"dup_b.bin", dup)]
             c["stages"] += [(b"dup_a.yaml", dict(cmd=b"", wd=b".", out=[(b"dup_a.bin", "")])),
                             (b"dup_b.yaml", dict(cmd=b"", wd=b".", out=[(b"dup_b.bin", "")], **{"in": [(b"dup_a.bin", "")]}))]
-        ops = [("commit", rng.choice("lc"), []), ("corrupt", rng.randrange(200), spec)]
+        ops = [("commit", rng.choice("lc"), []), ("corrupt", ("p" + s1.hx(widefile)) if widefile else rng.randrange(200), spec)]
         r = rng.random()
         if any(sp_ == b"dup_b.yaml" for sp_, st_ in c["stages"]) and rng.random() < 0.7:
             # the shared object is the corrupted one; the upstream copy is intact in the workspace, the downstream one is gone
